@@ -74,9 +74,12 @@ extern "C" double UF_F1(double x);
 extern "C" double UF_J0(double x);
 extern "C" double UF_J1(double x);
 #ifdef VOPT_NATIVE_UF
-extern "C" double UF_F0(double x) { return x * x - 2.0; }
+// residual used by the native twin: P0 + P1 x + P2 x^2 + P3 x^3 + P4 atan(x) (default x^2 - 2), settable per call so that a solver
+// model of the uninterpreted residual can be realised by a concrete function and replayed against the real minimize
+static double VOPT_P[5] = {-2.0, 0.0, 1.0, 0.0, 0.0};
+extern "C" double UF_F0(double x) { return VOPT_P[0] + VOPT_P[1] * x + VOPT_P[2] * x * x + VOPT_P[3] * x * x * x + VOPT_P[4] * std::atan(x); }
 extern "C" double UF_F1(double x) { return 0.5 * x + 1.0; }
-extern "C" double UF_J0(double x) { return 2.0 * x; }
+extern "C" double UF_J0(double x) { return VOPT_P[1] + 2.0 * VOPT_P[2] * x + 3.0 * VOPT_P[3] * x * x + VOPT_P[4] / (1.0 + x * x); }
 extern "C" double UF_J1(double) { return 0.5; }
 #endif
 namespace vopt {
@@ -143,3 +146,11 @@ inline void minimize0(const double * in, double * out)
 }
 }  // namespace vopt
 extern "C" void opt_minimize0(const double * i, double * o) { vopt::minimize0(i, o); }
+#ifdef VOPT_NATIVE_UF
+// in = [x0 | max_iter | strategy | ftol | ptol | P0..P4]
+extern "C" void opt_minimize0p(const double * i, double * o)
+{
+  for (int k = 0; k < 5; ++k) VOPT_P[k] = i[5 + k];
+  vopt::minimize0(i, o);
+}
+#endif
